@@ -38,7 +38,7 @@ META = {
     "C20": {"text": "Exploration + exhaustive sub-sweep: all basis matrices for K = 0..10 against long-double definitions (binomials, Cox-de Boor, "
                     "recurrences, cos(n acos x)), LGR exactness for 1..16 nodes, integrate_absolute_polynomial against exact piecewise antiderivatives "
                     "on hostile coefficient strata, binary_interval_search exhaustively on all sorted ranges of length <= 8 over 5 letters x 22 queries "
-                    "x 3 element types plus random clustered ranges under UBSan (pivot cast).",
+                    "x 3 element types (plus float/int ranges with double queries, deque, span) and random clustered ranges under UBSan (pivot cast).",
             "note": "Definitions re-implemented in long double in the harness; UBSan/ASan runtimes; sampled executions (search sweep exhaustive up to length 8).",
             "technique": "runtime monitoring: definition-level oracle, exhaustive small-scope sweep for the search, ASan/UBSan"},
     "C10": {"text": "Exploration: solve_linear_ldlt / solve_trust_region on 6k (quick) / 200k (thorough) random regularised least-squares problems "
@@ -93,7 +93,7 @@ META = {
                     "knot, local support (intervals outside i-K..i bit-equal after moving control point i), reproduction of constants with zero "
                     "derivatives, left-equivariance; ASan+UBSan watch the float->int64 interval index and the drop/take windows.",
             "note": _ALG_NOTE, "technique": "runtime monitoring: reference-model oracle + invariant monitors (continuity, locality, equivariance), ASan/UBSan"},
-    "C12": {"text": "Exploration over histories: random programs (1..12 operations) of constructors, +=, operator+, concat_global and crop over a register "
+    "C12": {"text": "Exploration over histories: random programs (1..12 operations) of constructors (incl. empty splines with a start pose), +=, operator+, concat_global (also with the object itself as operand), make_local and crop over a register "
                     "file of splines; each library object is shadowed by an executable model (expression tree evaluated by the specification in long "
                     "double); after every operation value/velocity/acceleration are compared at 0, t_max, outside, random times, every knot and knot "
                     "+- 1 ulp, together with t_max, size, start, end, zero derivatives outside, FixedCubic's end conditions and arclength (commutative groups).",
